@@ -103,6 +103,51 @@ def make_root(src_root: str, edits) -> Optional[str]:
         raise
 
 
+def rename_locals(text: str, suffix: str = "_r") -> str:
+    """Behaviour-preserving: consistently rename the local variables of every function (not parameters, not
+    globals / nonlocals, not names shared with nested functions or comprehensions-free usage)."""
+    tree = ast.parse(text)
+
+    def own(fn):
+        stack = list(fn.body)
+        while stack:
+            n = stack.pop()
+            yield n
+            if isinstance(n, (ast.FunctionDef, ast.AsyncFunctionDef, ast.ClassDef, ast.Lambda)):
+                continue
+            stack.extend(ast.iter_child_nodes(n))
+
+    for fn in [n for n in ast.walk(tree) if isinstance(n, (ast.FunctionDef, ast.AsyncFunctionDef))]:
+        params = {a.arg for a in fn.args.posonlyargs + fn.args.args + fn.args.kwonlyargs}
+        if fn.args.vararg:
+            params.add(fn.args.vararg.arg)
+        if fn.args.kwarg:
+            params.add(fn.args.kwarg.arg)
+        declared = set()
+        stored = set()
+        nested_names = set()
+        for n in own(fn):
+            if isinstance(n, (ast.Global, ast.Nonlocal)):
+                declared |= set(n.names)
+            if isinstance(n, ast.Name) and isinstance(n.ctx, (ast.Store, ast.Del)):
+                stored.add(n.id)
+            if isinstance(n, (ast.FunctionDef, ast.AsyncFunctionDef, ast.ClassDef, ast.Lambda)):
+                if not isinstance(n, ast.Lambda):
+                    stored.discard(n.name)
+                    nested_names.add(n.name)
+                for m in ast.walk(n):
+                    if isinstance(m, ast.Name):
+                        nested_names.add(m.id)
+            if isinstance(n, ast.ExceptHandler) and n.name:
+                nested_names.add(n.name)
+        # names of enclosing-function variables used here must not be shadowed: only rename what is stored here
+        ren = {x for x in stored if x not in params and x not in declared and x not in nested_names and not x.startswith("__")}
+        for n in own(fn):
+            if isinstance(n, ast.Name) and n.id in ren:
+                n.id = n.id + suffix
+    return ast.unparse(tree) + "\n"
+
+
 def _judge(args):
     vid, kind, prop, rules, src_root, edits_spec = args
     from sa.check import run_property
@@ -111,6 +156,8 @@ def _judge(args):
     for file, old, new, count, special in edits_spec:
         if special == "unparse":
             edits.append((file, lambda t: ast.unparse(ast.parse(t)) + "\n"))
+        elif special == "rename":
+            edits.append((file, rename_locals))
         else:
             edits.append((file, (lambda o, n, c: (lambda t: apply_edit(t, o, n, c)))(old, new, count)))
     try:
@@ -155,7 +202,7 @@ def run(prop: str, seed: int, root: str, coverage_out: dict, jobs: int = 16, onl
     rnd.shuffle(vs)
     tasks = []
     for v in vs:
-        special = "unparse" if v.old == "<unparse>" else None
+        special = "unparse" if v.old == "<unparse>" else ("rename" if v.old == "<rename-locals>" else None)
         files = v.file.split(",") if special else [v.file]
         tasks.append((v.vid, v.kind, prop, v.rules, root, [(f, v.old, v.new, v.count, special) for f in files]))
     results = []
